@@ -90,6 +90,20 @@ def run(tier, seed):
     n = 150 if tier == "quick" else 2500
     cases = core.Cases(); r.last_cases = cases
     corpus_cases(cases, PROP)
+    # fixed shapes (own PRNG, runs first): importing conftest files at every level, closed after the analyses
+    import random as _random
+    for j, force in enumerate([{0: "star", 1: "explicit", 2: "star_chain"}, {0: "plugins", 1: "explicit_as", 2: "star"},
+                               {0: "explicit", 1: "star_abs", 2: "defines"}]):
+        ws = wsgen.gen_workspace(_random.Random(50 + j), depth=2, force=force)
+        cases.case("wfix%dc" % j, dict(ws.meta, closed=3))
+        wsgen.emit_setup(cases, ws)
+        for p in ws.files:
+            if p.endswith("conftest.py"):
+                cases.op("close", p)
+        for p in ws.files:
+            cases.q("avail", p)
+            for nm in wsgen.NAMES + ["uses_it"]:
+                cases.q("resolve", p, nm)
     for i in range(n):
         ws = wsgen.gen_workspace(r.rng)
         name = "w%d" % i
@@ -101,6 +115,18 @@ def run(tier, seed):
             cases.q("avail", p)
             for nm in wsgen.NAMES + ["uses_it"]:
                 cases.q("resolve", p, nm)
+        confs = [p for p in ws.files if p.endswith("conftest.py")]
+        if i % 3 == 0 and confs:
+            # the same workspace after the editor CLOSED its conftest files (their text unchanged, still on disk):
+            # the cached text is dropped, and the views must go on agreeing
+            cases.case(name + "c", dict(ws.meta, closed=len(confs)))
+            wsgen.emit_setup(cases, ws)
+            for p in confs:
+                cases.op("close", p)
+            for p in ws.files:
+                cases.q("avail", p)
+                for nm in wsgen.NAMES + ["uses_it"]:
+                    cases.q("resolve", p, nm)
         ndefs = sum(1 for pf in ws.files.values() for (nm, _) in pf.defs if nm == "foo")
         if ndefs >= 2:
             r.nontrivial.add((tuple(sorted(ws.meta["modes"].items())), ws.meta["nsame"], ws.meta.get("sibling"), ws.meta["thirdparty"]))
